@@ -55,12 +55,20 @@ def image_case(src, asan, idx, seed, tier):
     if idx < nd_:
         first_half = idx < nx or 2 * nx <= idx < 2 * nx + len(corrupt.SB_VARIANTS) or 2 * nx + 2 * len(corrupt.SB_VARIANTS) <= idx < nd_ - len(corrupt.DX_VARIANTS)
         name, opts, size = corrupt.IMG_CONFIGS[0 if first_half else 2]
+    gdv = None
+    if nd_ <= idx < nd_ + len(corrupt.GD_VARIANTS):
+        gdv, cfgname = corrupt.GD_VARIANTS[idx - nd_]
+        name, opts, size = [c for c in corrupt.IMG_CONFIGS if c[0] == cfgname][0]
     base = corrupt.build_image(src, WORK, name, opts, size, 1)
     img = os.path.join(WORK, "m_%d.img" % idx)
     aux = os.path.join(WORK, "aux_%d" % idx)
     k = r.random()
     ns = len(corrupt.SB_VARIANTS)
-    if idx < 2 * nx:
+    if gdv:
+        # descriptor fields at the values that steer relocation / table-length arithmetic (thorough-tier findings: e2fsck -n
+        # relocating an inode table forever, e2image's table length wrapping below zero)
+        desc = corrupt.corrupt(base, img, r, directed=(corrupt.op_gd_variant, gdv))
+    elif idx < 2 * nx:
         # boundary values of one attribute-block entry, checksums valid
         desc = corrupt.corrupt(base, img, r, directed=(corrupt.op_xattr_block, corrupt.XATTR_VARIANTS[idx % nx]))
     elif idx < 2 * nx + 2 * ns:
@@ -179,6 +187,10 @@ UNDO_DIRECTED = [
     [("num_keys", 1 << 40)],
     [("key_offset", 1 << 40)],
     [("block_size", 1 << 30), ("fs_block_size", 1 << 30)],
+    [("block_size", 1)],            # below the size of a key block header: e2undo -f skipped the lower bound (thorough-tier finding)
+    [("block_size", 17)],
+    [("block_size", 31), ("key0.size", 511)],
+    [("block_size", 32)],
 ]
 
 
@@ -370,7 +382,7 @@ def run(res, replay=None):
         corrupt.build_image(src, WORK, nm, op, sz, 1)
     rows, dbad = dirwalk_corr(src, hexe, mexe, seed, 40 if tier == "quick" else 2000)
     erows, ebad = ea_value_corr(src, mexe, seed, 6 if tier == "quick" else 150)
-    n_img, n_j, n_a = (86, 16, 16) if tier == "quick" else (4000, 1500, 800)
+    n_img, n_j, n_a = (94, 16, 20) if tier == "quick" else (4000, 1500, 800)
     with concurrent.futures.ThreadPoolExecutor(14) as ex:
         o1 = list(ex.map(lambda i: image_case(src, asan, i, seed, tier), range(n_img)))
         o2 = list(ex.map(lambda i: journal_case(src, asan, i, seed, tier), range(n_j)))
